@@ -459,7 +459,7 @@ def run(pid, tier, seed):
     known = known_keys(pid)
     if tie_only and not [v for v in others if v[0] not in known] and tier == "quick" and not os.environ.get("VERIF_NO_SEARCH"):
         # the tie broke but no oracle rejected anything: search the implementation for a concrete failing input
-        # with the thorough-size generators and two further seeds before reporting `no-failing-input-found`
+        # with two further seeds (time permitting) before reporting `no-failing-input-found`
         for extra in (1, 2):
             if time.time() - _T0[0] > 200:
                 res["coverage"].setdefault("failing_input_search_note", "stopped early to keep the check within minutes; run --tier thorough for the full search")
